@@ -333,6 +333,22 @@ CLAIMS["C04"] = (
     "the namespace's slices.",
     "DESIGN.md section 4, C04")
 
+CLAIMS["C29"] = (
+    "The credential tables of the user manager as an abstract relation (key -> namespace, user -> password list): addNamespaceUsers maps "
+    "the key of every (user, password) of the namespace to that namespace and puts the password on the user's list, keeps every other key "
+    "and every previously registered password (loop invariants, any number of users; password lists of different users never share a backing "
+    "array); ClearNamespaceUsers removes exactly the keys mapped to that namespace, and a user loses exactly the passwords that some removed "
+    "key names -- nothing else: every other (user, password) stays, nothing new appears (nested loop invariants over the ranged key map with "
+    "its visited set and the filtered list); CloneUserManager registers exactly the same keys, namespaces and per-user password lists in "
+    "fresh tables and lists (so a reload works on a faithful copy); GetNamespaceByUser returns what is registered under the pair's key and "
+    "the empty name otherwise; CheckUser is membership in the user table.",
+    "Trusted: strings.Split at ':' as the uninterpreted userOf / passOf, with the axiom that they invert user + ':' + password for names and "
+    "passwords WITHOUT ':' -- with ':' in a name or password the key is read back wrongly (recorded finding: credentials are not validated); "
+    "listed heap-closure assumptions (password lists stored in the tables were allocated earlier). NOT under contract: RebuildNamespaceUsers "
+    "(Clear then add: composition of the two contracts), the password checks themselves (C30), Session.handleHandshakeResponse; 'across "
+    "reloads' is induction over Clone / Clear / add (meta-argument).",
+    "DESIGN.md section 4, C29")
+
 NA = {
  "C02": "not applicable to contract-based verification here: the oracle is the result of executing SQL on data (what one MySQL holding all shards would return); no contract within reach expresses an SQL execution semantics, and the rewriter is ~3k lines of visitors over TiDB AST types (DESIGN.md section 5)",
  "C06": "not applicable: the property compares a token pre-check with the decision of the yacc-generated parser; the specification is that parser (tables + hand-written lexer), which is outside the verifier's subset (DESIGN.md section 5)",
